@@ -92,7 +92,7 @@ def evaluate__string_join(self: XPathFunction, context: ta.ContextType = None) -
     if self.context is not None:
         context = self.context
 
-    items = [self.string_value(s) for s in self[0].select(context)]
+    items = [self.atomic_string_value(s) for s in self[0].select(context)]
 
     if len(self) == 1:
         return ''.join(items)
